@@ -63,6 +63,7 @@ fn main() {
         "C17" => c17::run(replay),
         "C18" => c18::run_check(replay),
         "C19" => c19::run_check(replay),
+        "C20" => c20::run_check(&args, replay),
         _ => {
             eprintln!("unknown property id {}", id);
             2
